@@ -257,3 +257,68 @@ GEO_LAYOUT_INPUTS = [
 # placeholder for a missing value in some rows and a number in others)
 GEO_LAYOUT_OUTPUTS = {'Reservoir Impedance': ['Average Pumping Power', 'Heat to Power Conversion Efficiency', 'Initial pumping power/net installed power'],
                       'Drawdown Parameter': ['Average Pumping Power', 'Heat to Power Conversion Efficiency']}
+
+
+# --------------------------------------------------------------------------------------
+# a user-supplied program (the driver's generic path: any other Code_File is started with subprocess.Popen and is expected to
+# read <input file> and write <output file>).  The model below is what the simulated child process does; it is a pure function
+# of the input file, fails without writing a report for some inputs, prints a value with thousands separators, a negative
+# value and a line that is only printed for some results.
+# --------------------------------------------------------------------------------------
+TOY_NAME = 'site_model.py'
+
+TOY_BASE = """Alpha, 3.0
+Beta, 30
+Count, 4
+Gamma, 0.5
+Alpha Scale, 2
+"""
+
+TOY_BASE_2 = """# another site
+Alpha Scale, 1.5
+Alpha, 2.25
+Beta, 45.5
+Gamma, 0.25
+Count, 2
+"""
+
+TOY_INPUTS = {
+    'Alpha': dict(ok=[('uniform', 1, 5), ('normal', 3, 0.25), ('triangular', 1, 2, 5), ('lognormal', 0.5, 0.25)],
+                  edge=[('uniform', -1, 3), ('normal', 0.5, 1)]),
+    'Beta': dict(ok=[('uniform', 10, 50), ('normal', 30, 5), ('triangular', 10, 20, 60), ('binomial', 60, 0.5)],
+                 edge=[('uniform', 60, 140), ('normal', 100, 10)]),
+    'Count': dict(ok=[('binomial', 6, 0.5), ('binomial', 3, 0.5)], edge=[], discrete=True),
+    'Gamma': dict(ok=[('uniform', 0.1, 0.9), ('triangular', 0.1, 0.5, 0.9), ('normal', 0.5, 0.02)], edge=[('uniform', -0.5, 0.5)]),
+}
+
+TOY_OUTPUTS = ['Net Yield', 'Loss Factor', 'Total Cost', 'Margin', 'Unit Cost', 'Site Index']
+
+
+def toy_report(text):
+    """-> report text, or None when the model fails (no report is written, exit status 1)"""
+    params = {}
+    for ln in text.split('\n'):
+        s_ = ln.strip()
+        if not s_ or s_.startswith('#') or ',' not in s_:
+            continue
+        parts = s_.split(',')
+        params[parts[0].strip()] = parts[1].strip()
+    try:
+        a = float(params.get('Alpha', 1.0))
+        b = float(params.get('Beta', 2.0))
+        n = int(float(params.get('Count', 3)))
+        g = float(params.get('Gamma', 0.5))
+        sc = float(params.get('Alpha Scale', 1.0))
+    except ValueError:
+        return None
+    if a <= 0 or b > 100 or g <= 0:
+        return None      # "did not converge"
+    lines = ['                 *** SITE MODEL REPORT ***', '',
+             f'      Net Yield: {a * sc * b + n:.3f} units',
+             f'      Loss Factor: {g / (a + 1):.6f}',
+             f'      Total Cost: {a * 1e6 + b * 1234.5:,.2f} USD',
+             f'      Margin: {n - a * b:.2f} %']
+    if n > 1:
+        lines.append(f'      Unit Cost: {(a * 1e6 + b) / n:.1f} USD')      # only printed for some results
+    lines.append(f'      Site Index: {a * 7 + g:.4f}')
+    return '\n'.join(lines) + '\n'
